@@ -48,7 +48,7 @@ CLAIMS.update({
    text="The real _fill_queue, _worker, _merge_worker, parallel_merging and parallel_add are executed symbolically: every item is queued once followed by one pill per worker; a worker applies the callback exactly once per received item, in order, to sketches attached to its own parent-owned blocks and accounts n_records once per cms/hh sketch at its pill; parallel_merging merges every input exactly once (symbolic weights) with disjoint pairs per round and all processes joined; parallel_add creates one shared sketch per type per worker, hands worker i its own sketches by name, and returns the merged results in the documented order."),
  "C10": dict(level=PROOF, ref="DESIGN.md 4 (C10)", technique=TECHB, note=GLUE_NOTE + " float64 round trip of heavy-hitter width/depth/max_key_len exact below 2^53; _find_base is a function of its arguments.",
    text="For each of the five classes the real save() and load() are executed symbolically on an object produced by the real constructor: load never raises on a file save wrote (the constructor's precondition holds for every state the constructor can produce), returns the same class with provably equal parameters, restores every table and the bookkeeping counters from the member save wrote them to, regenerates the heavy-hitter cache, supports shared_memory=True, the module-level load dispatches by the stored dtype and class loaders reject other counter types."),
- "C12": dict(level=PROOF, ref="DESIGN.md 4 (C12)", technique=TECH + "; " + TECHB, note=KERNEL_NOTE + " NOT proved: 'add(key, v) equals v single adds' - bounded oracle on the real classes only (log types under identical draws).",
+ "C12": dict(level=PROOF, ref="DESIGN.md 4 (C12)", technique=TECH + "; " + TECHB, note=KERNEL_NOTE + " 'add(key, v) equals v single adds' is proved for linear count-min and heavy hitters (closed form, inductive step + bulk case; induction over v is a meta-step) and HyperLogLog (idempotence); for the log types it is covered by the bounded oracle only (identical draws).",
    text="Every n-gram kernel is proved (typed IR, call-sequence contracts; HyperLogLog by ghost fold) to perform exactly one call of its family's add kernel per window key[i:i+n], i = 0..len-n, multiplicity 1 (one call on the whole key when len <= n), on its own tables, threading the random pointer; update(list), update(dict), update_ngram are proved to issue exactly the kernel-call sequence of the loop of single calls, __getitem__ that of query (symbolic execution of the real methods of all five classes)."),
  "C13": dict(level=PROOF, ref="DESIGN.md 4 (C13)", technique=TECHB, note=GLUE_NOTE + " generate_candidate_set is proved for concrete small shapes (width*depth <= 4 quick, <= 6 thorough) with fully symbolic contents: BOUNDED in shape. Counter.most_common is an assumed contract. n_added does not wrap 2^64.",
    text="generate_candidate_set: the cache maps exactly the stored identities of non-empty cells whose _max_count (max over all rows, by contract) is >= threshold to that count, and records (n_added, threshold). query(): for every cache state it regenerates for the effective threshold (floor(phi*n_added) by default) unless n_added_sort >= n_added and threshold_sort equals it, and returns candidate_set.most_common(k); no mutator touches the cache bookkeeping while add/merge change n_added through their kernels; counts equal hh[key] (same kernel, same arguments)."),
